@@ -221,7 +221,7 @@ fn run_walk_loop(steps: usize, canary: bool) {
     }
 }
 
-// @harness props=C01,C02,C03 tier=quick cost=200 flags=nomem
+// @harness props=C01,C02,C03,C10 tier=quick cost=200 flags=nomem
 // @exec process_dir (the whole loop and epilogue), MatcherIO::{new,exit_code,should_quit,should_skip_current_dir}, PruneMatcher::matches
 // @sym script of 0..2 steps; per step: walkdir error or entry (directory or not, symbolic record), expression prunes / quits / sets a failing status; -depth on/off
 // @bounds at most 2 yielded entries (thorough: 3); walkdir's iterator scripted; WalkEntry::from_walkdir scripted; Path::parent cut to None (disables only the finished_dir bookkeeping)
@@ -266,7 +266,7 @@ fn c03_walk_loop2() { run_walk_loop(2, false); }
 #[kani::stub(walkdir::DirEntry::path_is_symlink, de_sym_cut)]
 fn c03_walk_loop2_canary() { run_walk_loop(2, true); }
 
-// @harness props=C01,C02,C03 tier=thorough cost=900 flags=nomem
+// @harness props=C01,C02,C03,C10 tier=thorough cost=900 flags=nomem
 // @exec as c03_walk_loop2
 // @sym script of 0..3 steps
 // @bounds at most 3 yielded entries
